@@ -202,6 +202,7 @@ func (r *libRun) inProc(spec simos.ProcSpec, fn func()) (killed bool, pnc string
 // put runs the real create/write/close protocol. acked is true when every
 // call returned nil.
 func (r *libRun) put(op libOp, fault *simos.Fault, pl *simos.PowerLoss) (acked, killed bool, pnc string, p *simos.Proc) {
+	core.Tick()
 	k := r.keys[op.Key]
 	body := op.Body.bytes()
 	spec := simos.ProcSpec{PowerLoss: pl}
@@ -254,6 +255,7 @@ func (r *libRun) violate(class, sig, detail string, sc *libScenario) {
 // that reproduces a failure is built lazily by mk.
 func (r *libRun) check(ki int, mk func() *libScenario) (opened bool) {
 	r.res.Evaluations++
+	core.Tick()
 	k := r.keys[ki]
 	var oerr, rerr error
 	var got []byte
